@@ -41,6 +41,12 @@ structure FMon where
   finished : List Nat := []
   sentAfter : List (Nat × Nat × Why) := []
   bad : Option (Nat × Nat × Why) := none
+  /-- messages that have entered their receiver's handler queue -/
+  enqd : List Nat := []
+  /-- (i, j): `i` stands before `j` in one body (any kinds) -/
+  bodies : List (Nat × Nat) := []
+  /-- first (i, j) with `j` entering the handler queue before `i` although `i` stands before `j` in their body -/
+  badEnq : Option (Nat × Nat) := none
 
 /-- Is `k` a synchronous message on the pair of `j`, other than `j` itself? -/
 def Cfg.obliges (cfg : Cfg) (j : Nat) (k : Nat) : Bool := (cfg.kind k).sync && cfg.pair k == cfg.pair j && k != j
@@ -63,7 +69,8 @@ def FMon.step (cfg : Cfg) (m : FMon) : FEv → FMon
   | .msg (.snd j) => { m with sentAfter := m.sentAfter ++ m.owed cfg j false }
   | .msg (.bsnd ps j) =>
     { m with sentAfter := m.sentAfter ++ m.owed cfg j false
-                            ++ ((ps.filter fun k => cfg.obliges j k).map fun k => (k, j, Why.body)) }
+                            ++ ((ps.filter fun k => cfg.obliges j k).map fun k => (k, j, Why.body)),
+             bodies := m.bodies ++ ps.map fun k => (k, j) }
   | .msg (.ret i) => { m with returned := (i, .later) :: m.returned }
   | .msg (.beg j) =>
     match m.bad with
@@ -73,6 +80,14 @@ def FMon.step (cfg : Cfg) (m : FMon) : FEv → FMon
       | some p => { m with bad := some p }
       | none => m
   | .msg (.fin i) => { m with finished := i :: m.finished }
+  | .enq j =>
+    -- "dispatched to handlers in the order they were sent": a member of a body enters the queue after the members before it
+    match m.badEnq with
+    | some _ => { m with enqd := j :: m.enqd }
+    | none =>
+      match m.bodies.find? fun p => p.2 == j && !m.enqd.contains p.1 with
+      | some p => { m with enqd := j :: m.enqd, badEnq := some p }
+      | none => { m with enqd := j :: m.enqd }
   | .fcall g => { m with sentAfter := m.sentAfter ++ ((cfg.copies g).filter fun c => cfg.grp c == some g).flatMap fun c => m.owed cfg c true }
   | .ferr c => { m with failed := c :: m.failed }
   | .fret g =>
@@ -80,7 +95,7 @@ def FMon.step (cfg : Cfg) (m : FMon) : FEv → FMon
 
 def fmonitor (cfg : Cfg) (evs : List FEv) : FMon := evs.foldl (FMon.step cfg) {}
 
-def fholdsOn (cfg : Cfg) (evs : List FEv) : Bool := (fmonitor cfg evs).bad.isNone
+def fholdsOn (cfg : Cfg) (evs : List FEv) : Bool := (fmonitor cfg evs).bad.isNone && (fmonitor cfg evs).badEnq.isNone
 
 /-! ### Per message -/
 
@@ -105,6 +120,7 @@ inductive Clause where
   | f14NotDispatched (i : Nat)
   | notHandled (i : Nat)
   | sameBody (i j : Nat)
+  | bodyDispatch (i j : Nat)
   | laterSend (i j : Nat)
   | fanout (g i j : Nat)
 deriving DecidableEq, Repr
@@ -123,7 +139,10 @@ def clauseOf : Nat × Nat × Why → Clause
   | (i, j, .body) => .sameBody i j
   | (i, j, .fan g) => .fanout g i j
 
-/-- The ordering clause on the case's event log. -/
-def orderClause (cfg : Cfg) (evs : List FEv) : Option Clause := (fmonitor cfg evs).bad.map clauseOf
+/-- The ordering clause on the case's event log: handler order first, then the order of entering the queue. -/
+def orderClause (cfg : Cfg) (evs : List FEv) : Option Clause :=
+  match (fmonitor cfg evs).bad with
+  | some x => some (clauseOf x)
+  | none => (fmonitor cfg evs).badEnq.map fun p => .bodyDispatch p.1 p.2
 
 end Order
